@@ -25,9 +25,13 @@ def generate():
     w('From PJ Require Import Base.Json.')
     w('Import ListNotations.')
     w('Open Scope string_scope.')
-    # error registry: only the classes pjrpc itself defines (harness-defined subclasses are passed per case)
+    # error registry: the classes pjrpc itself defines, read from the live mapping, and the application classes of
+    # harness/lib/usererrors.py, taken from their DEFINITIONS (defining a subclass with a code is what registers it)
+    from . import usererrors
     mapping = exc.JsonRpcErrorMeta.__errors_mapping__
     own = []
+    for cls in usererrors.CLASSES:
+        own.append((cls.code, cls.__name__, cls.message, [b.__name__ for b in cls.__mro__[1:] if issubclass(b, exc.BaseError)]))
     for code, cls in sorted(mapping.items()):
         if cls.__module__ != 'pjrpc.common.exceptions':
             continue
